@@ -381,11 +381,13 @@ def _fault_case(case):
 def plan(tier, seed):
     cases = []
     tc = ((1, 2), (2, 1))
-    for c in espace.plan_shards(tier, parsers=False, quick_pairs=(), thorough_combos=tc):
-        cases.append(dict(c, part="A", backend="pandas"))
+    if tier != "quick":
+        # (the parser-enabled alphabet is a superset of the plain one: in the quick tier the plain space would be evaluated twice)
+        for c in espace.plan_shards(tier, parsers=False, quick_pairs=(), thorough_combos=tc):
+            cases.append(dict(c, part="A", backend="pandas"))
     for c in espace.plan_shards(tier, parsers=True, quick_pairs=("frame",) if tier == "quick" else (), thorough_combos=tc):
         cases.append(dict(c, part="A", backend="pandas"))
-    for c in espace.plan_shards(tier, parsers=True, bases=["frame", "column", "column_str"], quick_pairs=("frame",), thorough_combos=tc):
+    for c in espace.plan_shards(tier, parsers=True, bases=["frame", "column", "column_str"], quick_pairs=(), thorough_combos=tc):
         cases.append(dict(c, part="A", backend="polars"))
     cases.append({"part": "nonframe"})
     bound = 1 if tier == "quick" else 2
